@@ -16,6 +16,7 @@ import (
 	"runtime"
 	"strings"
 	"sync"
+	"sync/atomic"
 	"time"
 
 	"github.com/blinklabs-io/gouroboros/cbor"
@@ -46,6 +47,7 @@ type g3Fixture struct {
 	wire   []uint8 // message types parsed from the engine's outbound byte stream, in order
 	wireB  bytes.Buffer
 	peerBytes uint64 // payload bytes the raw peer has received from the engine
+	segLens   []int  // payload length of every segment the raw peer has received
 	muxDone    bool          // the muxer has shut down (its error channel was closed)
 	readerDone chan struct{} // closed when the raw peer's reader has seen EOF
 	closed bool
@@ -184,6 +186,7 @@ func (f *g3Fixture) peerReader() {
 		}
 		f.mu.Lock()
 		f.peerBytes += uint64(len(payload))
+		f.segLens = append(f.segLens, len(payload))
 		f.wireB.Write(payload)
 		for f.wireB.Len() > 0 {
 			var raw []cbor.RawMessage
@@ -232,7 +235,24 @@ func (f *g3Fixture) peerSendMsgs(msgs ...protocol.Message) error {
 }
 
 // waitFor blocks until pred(events) holds or the timeout expires.
+// g3StuckCount counts synchronisation waits that ran into g3Deadline in this process.  After a
+// few of them the verdict of the run is a violation anyway, and the remaining ops use a short
+// deadline so that a hanging engine does not make the check run for hours.
+var g3StuckCount atomic.Int32
+
 func (f *g3Fixture) waitFor(timeout time.Duration, pred func(ev []g3Event, wire []uint8) bool) bool {
+	sync := timeout == g3Deadline
+	if sync && g3StuckCount.Load() >= 3 {
+		timeout = 5 * time.Second
+	}
+	ok := f.waitFor1(timeout, pred)
+	if sync && !ok {
+		g3StuckCount.Add(1)
+	}
+	return ok
+}
+
+func (f *g3Fixture) waitFor1(timeout time.Duration, pred func(ev []g3Event, wire []uint8) bool) bool {
 	deadline := time.Now().Add(timeout)
 	stop := make(chan struct{})
 	defer close(stop)
